@@ -170,6 +170,7 @@ class State:
         self.writes = 0
         self.depth = 0
         self.bound = []     # bound variables of enclosing spec quantifiers
+        self.dec = []       # the subset of pc that are *decisions* (branch conditions, normal/raise predicates of callees)
 
     def fork(self):
         s = State()
@@ -182,12 +183,15 @@ class State:
         s.writes = self.writes
         s.depth = self.depth
         s.bound = list(self.bound)
+        s.dec = list(self.dec)
         return s
 
-    def assume(self, c):
+    def assume(self, c, decision=False):
         if c is True or (z3.is_true(c) if isinstance(c, z3.ExprRef) else False):
             return self
         self.pc.append(c)
+        if decision:
+            self.dec.append(c)
         return self
 
     @property
@@ -469,10 +473,10 @@ class Engine:
         side.extend(myside)
         return r
 
-    def check_ground(self, formulas, timeout_ms):
+    def check_ground(self, formulas, timeout_ms, keep=()):
         s = self._solver(timeout_ms)
         side = []
-        for a in self.ground(self.axioms + self.func_axioms + list(formulas)):
+        for a in self.ground(self.axioms + self.func_axioms + list(formulas)) + [k for k in keep if not self._has_q(k)]:
             s.add(self.abstract_seq(a, side))
         for a in side:
             s.add(a)
@@ -486,9 +490,14 @@ class Engine:
         """False only if the path condition is certainly contradictory (quantifier-free part, short budget)"""
         return self.check_ground(st.pc, 120) != z3.unsat
 
+    def _has_q(self, e):
+        from .inst import _contains_quantifier
+        return _contains_quantifier(e)
+
     def entails(self, st, goal, timeout_ms=150):
-        """True only if the quantifier-free part of the path condition certainly implies goal"""
-        return self.check_ground(list(st.pc) + [z3.Not(goal)], timeout_ms) == z3.unsat
+        """True only if the quantifier-free part of the path condition certainly implies goal (the goal itself is kept
+        even if it mentions sequence constructions)"""
+        return self.check_ground(list(st.pc), timeout_ms, keep=[z3.Not(goal)]) == z3.unsat
 
     def oblige(self, st, goal, name, where='', terms=()):
         """record a proof obligation: pc |= goal"""
